@@ -1,6 +1,7 @@
 """C05 — set operations over ordered streams equal their mathematical definitions (structural part)."""
 from absint import Prover
 from paths import explore
+import stdalg
 from sym import fmt, walk
 from rules.common import path_calls, arg_loc, ret_kind
 from rules.streams import norm, is_call
@@ -29,14 +30,14 @@ TAKERS = (HEAP + '::pop', HEAP + '::pop_if_equal', HEAP + '::pop_if_le')
 
 
 def slot_of(call_expr):
-    return ('field', ('variant', call_expr, 'Some'), '0')
+    return ('okof', call_expr)        # canonical payload (stdalg): match / if let / `?` / unwrap all read this
 
 
 def obtained_slots(f, p):
     """[(k, bid, kind, slot expr)] for slots obtained on the path (Some arm taken)"""
     out = []
     some = {}
-    for d in p.decisions:
+    for d in p.cdecisions():
         e, val = d[2], d[3]
         if e[0] == 'discr' and e[1][0] == 'call':
             some[norm(e[1])] = val
@@ -45,13 +46,13 @@ def obtained_slots(f, p):
             ce = p.sym.call_expr_at((k, 'T'))
             if some.get(norm(ce)) == 1:
                 kind = 'parked' if callee.endswith('::take') else callee.rsplit('::', 1)[-1]
-                out.append((k, bid, kind, norm(slot_of(ce))))
+                out.append((k, bid, kind, peel(slot_of(ce))))
     return out
 
 
 def peel(e):
-    """norm + look through Option plumbing: unwrap(as_ref(Some(x))) = x"""
-    e = norm(e)
+    """norm + look through Option plumbing: unwrap(as_ref(Some(x))) = x; payloads in canonical form"""
+    e = norm(stdalg.canon_value(e))
     changed = True
     while changed:
         changed = False
@@ -69,7 +70,7 @@ def peel(e):
 
 
 def mentions_slot(e, s):
-    return any(norm(x) == s for x in walk(e))
+    return any(peel(x) == s for x in walk(e))
 
 
 def outs_locs(f):
@@ -98,7 +99,7 @@ def r05_1_4(ctx, name, f):
             if p.end == 'diverge':
                 continue
             n += 1
-            refills = [c for c in calls if c[2] == HEAP + '::refill' and c[0] > k and norm(c[3][1]) == s]
+            refills = [c for c in calls if c[2] == HEAP + '::refill' and c[0] > k and peel(c[3][1]) == s]
             parks = []
             for st in p.stores():
                 if st[2] == (1, 'cur_slot') and st[0] >= k:
@@ -321,7 +322,7 @@ def r05_key(ctx, name, f):
                 key = args[1] if len(args) > 1 else None
                 if key is None:
                     continue
-                kk = norm(key)
+                kk = norm(stdalg.canon_value(key))
                 if kk[0] == 'param' and f.path not in OPS.values():
                     ok = True        # a helper's key parameter: bound at the call site in the stream, checked there
                 elif is_call(kk, 'Slot::input'):
